@@ -976,9 +976,11 @@ class NodeFor:
             return result
 
         if lst.isObject():
-            values = lst.value
+            # the body may add or remove members: loop over the members the
+            # object has when the loop starts (as for maps and sets)
+            values = list(lst.value.items())
             result = TRUE
-            for key, value in values.items():
+            for key, value in values:
                 val = value
                 if self.what == "keys":
                     val = ValueString(key)
